@@ -735,7 +735,13 @@ class LRItem:
         """
 
         if self.position < len(self.production.rhs):
-            return LRItem(self.production, self.position + 1, self.follow)
+            # Follow set must be copied. If shared, lookaheads merged into
+            # the target state would leak back to this item's state.
+            return LRItem(
+                self.production,
+                self.position + 1,
+                set(self.follow) if self.follow is not None else None,
+            )
 
     @property
     def symbol_at_position(self):
